@@ -2,6 +2,9 @@ import RulioModel.LocInv
 import RulioProofs.LocState
 import RulioProofs.LocExpiry
 import Props.C19
+import Props.C08
+import RulioModel.CloseFrag
+import RulioProofs.CloseExpiry
 
 open LocP
 
@@ -196,3 +199,120 @@ example :
     rfl (by decide) 1059).2.2 s "f1" hg
   have n := never_again.1 s "f1" _ 1060 hg (by decide)
   exact ⟨by rw [v.1 (by decide)], n.1, n.2.1 rfl⟩
+
+
+/-! ## the indexed state: closing the `never_again` gaps (composition with C08's vocabulary)
+
+`IndexedState.rem` can fail *before* it touches memory in exactly one way: the stored rule's `when` pattern cannot be
+removed from the pattern index (`unindexErr id fact`, decidable on the fact alone; `UnindexOK s` says no stored fact
+is like that; see C08 `cascade_aborts_on_unindex_error` for a reachable state that is). Every other failure
+(deleteWith cascade, recursion budget) happens after the fact has been erased from memory and storage. The indexed
+`Search` / `FindRules` ignore the result of that removal and only visit *candidates* (term index resp. pattern index). -/
+
+/-- **never_again_indexed_get** — the indexed `Get` clause of `never_again` without its hypothesis "when `irem` does not
+fail". For a stored fact `f` expired at `t` in an indexed state (any state, reachable or not):
+* if the fact's rule can leave the pattern index (`unindexErr id f = false`; in particular every fact that is not a
+  rule), then after `Get` the fact is gone from memory *and* storage — even if the deleteWith cascade behind it fails;
+* otherwise `Get` answers an error and the state is *unchanged* (the expired fact stays stored, but is still never
+  returned: `never_again`, first clause);
+* (C08 `cascade_ok` / `cascade_terminates`) in a well-formed state — every reachable one, `reachable_wf` — where no
+  *other* stored fact is expired and `UnindexOK` holds, `Get` answers exactly `notFound`, never the budget error,
+  and what is left is `specRem s.facts id`: the fact and its `deleteWith` closure are gone, nothing else. -/
+theorem never_again_indexed_get (s : St) (hk : s.kind = .indexed) (id : String) (f : Obj) (t : Int)
+    (hg : amGet s.facts id = some f) (hx : checkExpiration f t = .ok true) :
+    (unindexErr id f = false →
+      amGet (s.get id t).1.facts id = none ∧ amGet (s.get id t).1.store id = none) ∧
+    (unindexErr id f = true → ∃ e, s.get id t = (s, .error e)) ∧
+    (WF s → NoneExpiredBut s id t → UnindexOK s →
+      ∃ s', s.get id t = (s', .error "notFound") ∧ s'.facts = specRem s.facts id ∧
+        amGet s'.facts id = none ∧ amGet s'.store id = none) := by
+  obtain ⟨h1, h2⟩ := St.get_expired_indexed hk hg hx
+  refine ⟨h1, h2, fun hwf hne hun => ?_⟩
+  obtain ⟨s', hget, hfacts, _, _, _⟩ := cascade_by_expiry s t id f hwf hg hx hne (fun _ => hun)
+  rw [← St.get_eq_getOK] at hget
+  have hgone := h1 (hun (id, f) (amGet_some_mem hg))
+  rw [hget] at hgone
+  exact ⟨s', hget, hfacts, hgone⟩
+
+/-- **never_again_indexed_search** — `Search` and `FindRules` of the indexed state at time `t`:
+1. `FindRules` (both implementations) returns only rule bodies of stored facts that are not expired at `t` (for `Search`
+   this is `never_again`, second clause): an item with `0 ≠ expires ≤ t` is never dispatched;
+2. a completed indexed `Search` has purged from memory and storage every expired *candidate* whose rule can leave the
+   pattern index — the candidates `St.cands s p` being all stored ids when the pattern has no terms, and otherwise
+   the ids listed in the term index under *every* term of the pattern (`TI.mem_search`);
+3. in a well-formed state (every reachable one) the candidates include every stored fact that carries all the terms of
+   the pattern — so each such expired fact is purged; a fact lacking one of the pattern's terms is not a candidate of this search and,
+   if expired, may stay stored until a `Get`/`Search`/`FindRules` reaches it (it is still never returned);
+4. a completed indexed `FindRules` has purged every expired candidate of the pattern index (`piSearch s.ri ev`) whose
+   rule can leave the pattern index. -/
+theorem never_again_indexed_search :
+    (∀ (s s' : St) (ev : Obj) (t : Int) (out : List (String × Obj)), s.findRules ev t = (s', .ok out) →
+      ∀ r ∈ out, ∃ f, amGet s.facts r.1 = some f ∧ checkExpiration f t ≠ .ok true ∧
+        ((∃ f', extractRule f true = .ok (some r.2, f')) ∨ f.get? "rule" = some (.obj r.2))) ∧
+    (∀ (s s' : St) (p : Obj) (t : Int) (out : List (String × Obj × List Bs)), s.kind = .indexed →
+      s.search p t = (s', .ok out) → ∀ ids, s.cands p = .ok ids → ∀ id ∈ ids, ∀ f, amGet s.facts id = some f →
+        checkExpiration f t = .ok true → unindexErr id f = false →
+        amGet s'.facts id = none ∧ amGet s'.store id = none) ∧
+    (∀ (s : St) (p : Obj), s.kind = .indexed → WF s → ∀ id f, amGet s.facts id = some f →
+      (∀ term, term ∈ extractTerms p → term ∈ extractTerms f) → ∃ ids, s.cands p = .ok ids ∧ id ∈ ids) ∧
+    (∀ (s s' : St) (ev : Obj) (t : Int) (out : List (String × Obj)), s.kind = .indexed →
+      s.findRules ev t = (s', .ok out) → ∀ ids, piSearch s.ri ev = .ok ids → ∀ id ∈ ids, ∀ f,
+        amGet s.facts id = some f → checkExpiration f t = .ok true → unindexErr id f = false →
+        amGet s'.facts id = none ∧ amGet s'.store id = none) :=
+  ⟨fun _ _ _ _ _ h => St.findRules_results h,
+   fun _ _ _ _ _ hk h _ hc _ hid _ hg hx hu => St.search_purges_indexed hk h hc hid hg hx hu,
+   fun _ _ hk hwf _ _ hg hsub => cands_of_terms (hwf.tiok hk) (amGet_some_mem hg) hsub,
+   fun _ _ _ _ _ hk h _ hc _ hid _ hg hx hu => St.findRules_purges_indexed hk h hc hid hg hx hu⟩
+
+/-- **never_again_indexed_reachable** — the three clauses combined for every reachable indexed state (any history of
+`Add`/`Rem` from the empty state): a completed `Search p` at time `t` returns no expired fact, and every stored fact
+that is expired at `t`, carries all the terms of `p` (every stored fact, if `p` has none), and can leave the pattern
+index, is gone from memory and storage afterwards. -/
+theorem never_again_indexed_reachable (ops : List StOp) (p : Obj) (t : Int) (s' : St)
+    (out : List (String × Obj × List Bs)) (h : (St.run { kind := .indexed } ops).search p t = (s', .ok out)) :
+    (∀ r ∈ out, amGet (St.run { kind := .indexed } ops).facts r.1 = some r.2.1 ∧
+      checkExpiration r.2.1 t ≠ .ok true) ∧
+    (∀ id f, amGet (St.run { kind := .indexed } ops).facts id = some f → checkExpiration f t = .ok true →
+      unindexErr id f = false → (∀ term, term ∈ extractTerms p → term ∈ extractTerms f) →
+      amGet s'.facts id = none ∧ amGet s'.store id = none) := by
+  have hk : (St.run { kind := .indexed } ops).kind = .indexed := run_kind _ ops
+  refine ⟨(never_again.2.1 _ s' p t out h).1, fun id f hg hx hu hsub => ?_⟩
+  obtain ⟨ids, hc, hid⟩ := never_again_indexed_search.2.2.1 _ p hk (reachable_wf .indexed ops) id f hg hsub
+  exact never_again_indexed_search.2.1 _ s' p t out hk h ids hc id hid f hg hx hu
+
+/-- non-vacuity: in the reachable state `expirySearchOps` (`t` expires at 5 and carries the term `k`; `v` lives; `w`
+expires at 6 but has no term `k`) the search for `{"k":1}` at time 10 completes (with no result); `t` is a candidate
+that can leave the pattern index, so it is purged; `w` is not a candidate of this search and stays stored -/
+example :
+    okIds ((St.run { kind := .indexed } expirySearchOps).search [("k", .num 1)] 10).2 = some [] ∧
+    ((St.run { kind := .indexed } expirySearchOps).search [("k", .num 1)] 10).1.facts.map (·.1) = ["v", "w"] ∧
+    (∀ s' out, (St.run { kind := .indexed } expirySearchOps).search [("k", .num 1)] 10 = (s', .ok out) →
+      amGet s'.facts "t" = none ∧ amGet s'.store "t" = none) := by
+  refine ⟨by decide +kernel, by decide +kernel, fun s' out h => ?_⟩
+  obtain ⟨f, hg, hx, hu, hsub⟩ := purgeCand_of_check
+    (s := St.run { kind := .indexed } expirySearchOps) (p := [("k", .num 1)]) (id := "t") (now := 10) (by decide +kernel)
+  exact (never_again_indexed_reachable expirySearchOps _ 10 s' out h).2 "t" f hg hx hu hsub
+
+/-- … and `Get "t"` at 10 in the same state: purged (the third clause of `never_again_indexed_get` needs "no other fact
+expired", which fails here because of `w`; the first clause does not) -/
+example : amGet ((St.run { kind := .indexed } expirySearchOps).get "t" 10).1.facts "t" = none ∧
+    amGet ((St.run { kind := .indexed } expirySearchOps).get "t" 10).1.store "t" = none := by
+  obtain ⟨f, hg, hx, hu, _⟩ := purgeCand_of_check
+    (s := St.run { kind := .indexed } expirySearchOps) (p := []) (id := "t") (now := 10) (by decide +kernel)
+  exact (never_again_indexed_get _ (run_kind _ _) "t" f 10 hg hx).1 hu
+
+/-- with C08's `expiryOps` (only `t` is expired at 10) all hypotheses of the third clause hold: `notFound`, `t` and its
+dependent `u` are gone, `v` is left -/
+example : ∃ s', (St.run { kind := .indexed } expiryOps).get "t" 10 = (s', .error "notFound") ∧
+    s'.facts.map (·.1) = ["v"] := by
+  obtain ⟨fact, hg, hx⟩ := expired_of_check (s := St.run { kind := .indexed } expiryOps) (id := "t") (now := 10)
+    (by decide +kernel)
+  obtain ⟨s', h1, h2, _⟩ := (never_again_indexed_get _ (run_kind _ _) "t" fact 10 hg hx).2.2
+    (reachable_wf .indexed expiryOps) (noneExpiredBut_of_check (by decide +kernel)) (unindexOK_of_check (by decide +kernel))
+  exact ⟨s', h1, by rw [h2]; decide +kernel⟩
+
+/-- an expired rule (`expiryRuleOps`: `r` expires at 5, `q` does not) is not dispatched at 10 and is purged -/
+example :
+    okIds ((St.run { kind := .indexed } expiryRuleOps).findRules [("a", .num 1)] 10).2 = some ["q"] ∧
+    ((St.run { kind := .indexed } expiryRuleOps).findRules [("a", .num 1)] 10).1.facts.map (·.1) = ["q"] := by
+  constructor <;> decide +kernel
